@@ -1,5 +1,6 @@
 (* Run/RunC14.v — entry points of the C14 models for the correspondence driver *)
-From RG Require Import Base.Bytes Base.Val Model.LineBufferBin Model.BinaryDetect.
+From RG Require Import Base.Bytes Base.Val Model.LineBufferBin Model.BinaryDetect Model.CorePlan.
+From RG Require Model.SearcherCore.
 
 Definition dec_mode (m : val) (b : val) : bin_mode :=
   match as_nat m with 0 => BNone | 1 => BQuit (as_N b) | _ => BConvert (as_N b) end.
@@ -75,6 +76,50 @@ Definition run_search (v : val) : val :=
        (* -c --include-zero *)
        of_bytes (ms_out (fst (fst (search (sum_step (sum_ez false SKCount)) (mk_sum 0 None []))))) ].
 
+(* kind 1404: one line-oriented search with context options (-A/-B, --passthru, --stop-on-nonmatch), the plan
+   computed by the Core model (Model/CorePlan.v), the sniffed prefix of a slice bounded by the hook value.
+   case = the fields of kind 1401 ++ (before after stop_on_nonmatch sniff); strategy 0 reader, 1 slice *)
+Definition run_search_ctx (v : val) : val :=
+  let mode := dec_mode (fld 0 v) (fld 1 v) in
+  let strategy := as_nat (fld 2 v) in
+  let capacity := as_nat (fld 3 v) in
+  let alloc := match as_option as_nat (fld 4 v) with None => AllocEager | Some l => AllocError l end in
+  let hist := dec_hist (fld 5 v) in
+  let stream := as_bytes (fld 6 v) in
+  let needles := map as_bytes (as_list (fld 7 v)) in
+  let invert := as_bool (fld 8 v) in
+  let passthru := as_bool (fld 9 v) in
+  let stop := as_option as_nat (fld 10 v) in
+  let bin_reply := as_bool (fld 11 v) in
+  let max_matches := as_option as_nat (fld 13 v) in
+  let path := as_option as_bytes (fld 14 v) in
+  let npre := as_nat (fld 15 v) in
+  let pterm := if as_bool (fld 16 v) then Some 0%N else None in
+  let sniff := Nat.min (as_nat (fld 12 v)) (as_nat (fld 20 v)) in
+  let lt := 10%N in
+  let pcfg := plan_cfg lt invert (as_nat (fld 17 v)) (as_nat (fld 18 v)) passthru (as_bool (fld 19 v)) in
+  let M := plan_matcher pcfg needles in
+  let cfg := mk_cfg capacity lt alloc mode in
+  let scfg := mk_std_cfg mode max_matches (SearcherCore.c_after pcfg) path [lt] (Some [45; 45]%N) dbg_byte in
+  let sum_ez ez k := mk_sum_cfg mode k max_matches ez path [lt] [58%N] pterm in
+  let sum k := sum_ez true k in
+  let fuel := length stream + 3 in
+  let plan := match strategy with 0 => ([], 0) | _ => core_slice_plan pcfg M stream end in
+  let search {St} (sink : St -> event -> St * bool) (s0 : St) : (St * list event) * outcome :=
+    match strategy with
+    | 0 => rbl_run sink mode (core_roll pcfg) (core_match pcfg M) cfg fuel
+                   (lb_build cfg) (mk_rd (firstn npre stream) (skipn npre stream) hist)
+                   (SearcherCore.core_new pcfg) (s0, [])
+    | _ => (slice_run sink mode sniff stream (fst plan) (snd plan) (s0, []), ODone)
+    end in
+  let '((_, tr), o) := search (rec_sink stop bin_reply) 0 in
+  let '((st, _), _) := search (std_step scfg (simple_render path pterm lt)) (mk_std 0 0 None []) in
+  let sum_out k := ms_out (fst (fst (search (sum_step (sum k)) (mk_sum 0 None [])))) in
+  VL [ of_list enc_event (rev tr); enc_outcome o; of_bytes (ss_out st);
+       of_bytes (sum_out SKCount); of_bytes (sum_out SKPathWithMatch);
+       of_bytes (sum_out SKPathWithoutMatch);
+       of_bytes (ms_out (fst (fst (search (sum_step (sum_ez false SKCount)) (mk_sum 0 None []))))) ].
+
 (* kind 1402: replace_bytes *)
 Definition run_replace_bytes (v : val) : val :=
   let (d, first) := replace_bytes (as_bytes (fld 0 v)) (as_N (fld 1 v)) (as_N (fld 2 v)) in
@@ -93,5 +138,6 @@ Definition entry (k : N) (v : val) : option val :=
   | 1401%N => Some (run_search v)
   | 1402%N => Some (run_replace_bytes v)
   | 1403%N => Some (run_detection_for v)
+  | 1404%N => Some (run_search_ctx v)
   | _ => None
   end.
